@@ -40,12 +40,14 @@ OPFORMS = [
     ("{0}->a", 1), ("{0}->a()", 1), ("{0} !> identity()", 1), ("{0}({1})", 2), ("if {0} then 1 else 2", 1), ("while {0} do break end", 1),
     ("error {0}", 1), ("do error {0} catch {1} 5 end", 2), ("{0} == {0}", 1), ("{0} < {0}", 1), ("string({0})", 1),
     ("for i in {0} do for i in {1} do i end end", 2),
-    ("def c = {0}; for i in keys c do c['k' + string(i)] = 1 end", 1), ("def c = {0}; for i in c do c[i] = 1 end", 1),
-    ("def c = {0}; for i in c do remove(c, i) end", 1), ("def c = <<<1 => 'a', 2 => 'b', 3 => 'c'>>>; for k in keys c do if k == 1 then remove(c, {0}) end", 1),
+    ("def c = <<<1 => 'a', 2 => 'b', 3 => 'c'>>>; for k in keys c do if k == 1 then remove(c, {0}) end", 1),
     ("def c = <<<1 => 'a', 2 => 'b'>>>; for [k, v] in entries c do remove(c, 2) end", 0), ("def c = <<<1 => 'a', 2 => 'b'>>>; for v in c do remove(c, 2) end", 0), ("sorted({0}, {1})", 2), ("[[i, j] for i in values {0} also for j in keys {1}]", 2),
     ("<<[i, j] for i in entries {0} also for j in values {1}>>", 2),
 ]
-MUTFORMS = [("a0[{1}] = {2}", 3), ("a0->a = {1}", 2)]
+MUTFORMS = [("a0[{1}] = {2}", 3), ("a0->a = {1}", 2),
+            # loops whose body changes the container they run over (C13: no host exception, terminates; the container is the target)
+            ("for i in keys a0 do a0['k' + string(i)] = 1 end", 1), ("for i in a0 do a0[i] = 1 end", 1), ("for i in a0 do remove(a0, i) end", 1),
+            ("for i in values a0 do remove(a0, i) end", 1), ("for [i, j] in entries a0 do remove(a0, i) end", 1)]
 
 
 def _interp():
